@@ -298,3 +298,259 @@ theorem restart_refines (env : Env) (fail : List String) (w : World) (c : Cat)
     | some t =>
       have hmem : i ∈ w.store.tids := hdom i t hti
       cases hen : t.enabled <;> simp [hmem, hen]
+
+/-! ### update: resolution, validation and the closed forms of its sub-steps -/
+
+
+theorem updateScript_some {env : Env} {s : Store} {orig : Task} {r : TaskReq} {script m : String}
+    (h : updateScript env s orig r = some (script, m)) :
+    m = updateTmpl orig r ∧
+    script = (if m ≠ "" then (s.tmpls m).getD "" else if r.script ≠ "" then r.script else orig.script) := by
+  unfold updateScript at h
+  unfold updateTmpl
+  by_cases hc : r.tmpl ≠ "" ∨ orig.tmpl ≠ ""
+  · rw [if_pos hc] at h
+    have hm : (if r.tmpl = "" then orig.tmpl else r.tmpl) ≠ "" := by
+      split
+      · rename_i h0; rcases hc with hc | hc
+        · exact absurd h0 hc
+        · exact hc
+      · assumption
+    cases hx : s.tmpls (if r.tmpl = "" then orig.tmpl else r.tmpl) with
+    | none => rw [hx] at h; simp at h
+    | some sc =>
+      rw [hx] at h; simp at h
+      obtain ⟨h1, h2⟩ := h
+      subst h2
+      refine ⟨by by_cases h0 : r.tmpl = "" <;> simp [h0], ?_⟩
+      rw [if_pos hm, hx]; exact h1.symm
+  · rw [if_neg hc] at h
+    have h1 : r.tmpl = "" := by
+      cases Decidable.em (r.tmpl = "") with
+      | inl h => exact h
+      | inr h => exact absurd (Or.inl h) hc
+    have h2 : orig.tmpl = "" := by
+      cases Decidable.em (orig.tmpl = "") with
+      | inl h => exact h
+      | inr h => exact absurd (Or.inr h) hc
+    by_cases p1 : (!(env orig.script).parse) = true
+    · rw [if_pos p1] at h; cases h
+    rw [if_neg p1] at h
+    by_cases p2 : r.script ≠ ""
+    · rw [if_pos p2] at h
+      by_cases p3 : (!(env r.script).parse) = true
+      · rw [if_pos p3] at h; cases h
+      rw [if_neg p3] at h
+      split at h
+      · cases h
+      · simp at h
+        obtain ⟨ha, hb⟩ := h
+        subst hb
+        subst ha
+        refine ⟨by simp [h1, h2], ?_⟩
+        simp [p2]
+    · rw [if_neg p2] at h
+      simp at h
+      obtain ⟨ha, hb⟩ := h
+      subst hb
+      refine ⟨by simp [h1, h2], ?_⟩
+      simp at p2
+      simp [p2, ha]
+
+theorem updateRecord_eq_def (env : Env) (c : Cat) (orig : Task) (r : TaskReq) (script m : String)
+    (hm : m = updateTmpl orig r) (hs : script = updateScriptOf c orig r) :
+    updateRecord env orig r script m = updateDef env c orig r := by
+  unfold updateRecord updateDef
+  rw [← hs, ← hm]
+  congr 1
+  unfold dbrpsOf
+  cases h1 : (env script).pdbrps.isEmpty <;> cases h2 : r.dbrps.isEmpty <;> simp [h1, h2]
+
+theorem updateValidate_ok {env : Env} {orig : Task} {r : TaskReq} {script m : String} {upd : Task}
+    (h : updateValidate env orig r script m = .ok upd) : upd = updateRecord env orig r script m := by
+  unfold updateValidate at h
+  repeat' split at h
+  all_goals first
+    | (cases h; done)
+    | (injection h with h; exact h.symm)
+
+theorem restartRenamed_view (env : Env) (fail : List String) (W : World) (id newId : String) (orig upd : Task) :
+    (restartRenamed env fail W id newId orig upd).1.view =
+      if id ≠ newId ∧ orig.enabled = true ∧ upd.enabled = true then
+        (if startOK env fail newId upd = true then (W.view.setExec id false).setExec newId true else W.view.setExec id false)
+      else W.view := by
+  unfold restartRenamed
+  split
+  · simp only [note_view, startTask_view, stopTask_view]
+  · rfl
+
+theorem restartRenamed_ok (env : Env) (fail : List String) (W : World) (id newId : String) (orig upd : Task) :
+    (restartRenamed env fail W id newId orig upd).2 =
+      if id ≠ newId ∧ orig.enabled = true ∧ upd.enabled = true then startOK env fail newId upd else true := by
+  unfold restartRenamed
+  split
+  · simp only [startTask_ok]
+  · rfl
+
+theorem applyStatus_view (env : Env) (fail : List String) (W : World) (id newId : String) (orig upd : Task) :
+    (applyStatus env fail W id newId orig upd).1.view =
+      if (orig.enabled != upd.enabled) = true then
+        (if upd.enabled = true then (if startOK env fail newId upd = true then W.view.setExec newId true else W.view)
+         else W.view.setExec id false)
+      else W.view := by
+  unfold applyStatus
+  split
+  · split
+    · split
+      · rename_i hs; rw [startTask_ok] at hs; simp only [note_view, startTask_view, hs, if_true]
+      · rename_i hs; rw [startTask_ok] at hs; simp only [note_view, startTask_view, hs]
+    · simp only [note_view, stopTask_view]
+  · simp only [note_view]
+
+theorem applyStatus_resp_eq (env : Env) (fail : List String) (W : World) (id newId : String) (orig upd : Task) :
+    (applyStatus env fail W id newId orig upd).2 =
+      if (orig.enabled != upd.enabled) = true ∧ upd.enabled = true ∧ startOK env fail newId upd = false then .fail else .ok := by
+  unfold applyStatus
+  by_cases h1 : (orig.enabled != upd.enabled) = true
+  · rw [if_pos h1]
+    by_cases h2 : upd.enabled = true
+    · rw [if_pos h2]
+      by_cases hs : startOK env fail newId upd = true
+      · rw [if_pos (by rw [startTask_ok]; exact hs), if_neg (fun hh => by rw [hs] at hh; exact Bool.noConfusion hh.2.2)]
+      · rw [if_neg (by rw [startTask_ok]; exact hs)]
+        simp at hs
+        rw [if_pos ⟨h1, h2, hs⟩]
+    · rw [if_neg h2, if_neg (fun hh => h2 hh.2.1)]
+  · rw [if_neg h1]
+    show Resp.ok = _
+    rw [if_neg (fun hh => h1 hh.1)]
+
+
+/-- Moving / re-templating one task keeps the association table accurate. -/
+theorem AssocInv.update {V : View} (h : AssocInv V) {id newId : String} {orig upd : Task}
+    (ho : V.tasks id = some orig) (hfresh : id ≠ newId → V.tasks newId = none)
+    (hm : upd.tmpl = "" → orig.tmpl = "") (T : String → Option Task) (A : String → String → Bool)
+    (hT : ∀ i, T i = if i = newId then some upd else if i = id then none else V.tasks i)
+    (hA : ∀ m k, A m k =
+      if upd.tmpl ≠ "" ∧ (id ≠ newId ∨ orig.tmpl ≠ upd.tmpl) then
+        (if m = upd.tmpl ∧ k = newId then true
+         else if orig.tmpl ≠ "" ∧ m = orig.tmpl ∧ k = id then false else V.assoc m k)
+      else V.assoc m k) :
+    ∀ m k, A m k = true ↔ (m ≠ "" ∧ ∃ t, T k = some t ∧ t.tmpl = m) := by
+  intro m k
+  have h1 := h m id
+  have h2 := h m newId
+  have h3 := h m k
+  rw [ho] at h1
+  rw [hA, hT]
+  by_cases hk1 : k = newId
+  · subst hk1
+    by_cases hid : id = k
+    · subst hid
+      simp only [ho] at h3
+      grind
+    · have := hfresh hid
+      rw [this] at h2
+      grind
+  · by_cases hk2 : k = id
+    · subst hk2
+      grind
+    · grind
+
+
+/-! ### whole histories -/
+
+theorem beginReq_view (w : World) (cut : Option Nat) : (beginReq w cut).view = w.view := rfl
+theorem beginReq_store (w : World) (cut : Option Nat) : (beginReq w cut).store = w.store := rfl
+
+/-- Requests covered by the proved refinement (task update and template update have their own theorems). -/
+def covered : Op → Bool
+  | .update _ _ => false
+  | .tupdate _ _ _ => false
+  | _ => true
+
+/-- One step without any recorded deviation: no crash point, no refused start on a create, no delete of a template
+that tasks were created from. -/
+structure StepOK (env : Env) (c : Cat) (r : Req) (resp : Resp) : Prop where
+  cut : r.cut = none
+  nodev : devStartFail env r.fail c r.op resp = false
+  noorphan : ∀ id, r.op = .tdelete id → ∀ i t, c.tasks i = some t → t.tmpl ≠ id
+  cov : covered r.op = true
+
+/-- The invariant carried along a history: the view shows the catalogue, the association table is accurate, the ID
+index enumerates the tasks, whatever executes is stored and enabled. -/
+structure RInv (w : World) (c : Cat) : Prop where
+  d : DInv w.view c
+  dom : WDom w
+  ei : ExecInv w
+
+theorem refine_step (env : Env) (w : World) (c : Cat) (r : Req) (h : RInv w c)
+    (hs : StepOK env c r (step Variant.fixed env r.fail r.cut w r.op).2) :
+    RInv (step Variant.fixed env r.fail r.cut w r.op).1
+      (specStep env r.fail c r.op (step Variant.fixed env r.fail r.cut w r.op).2) := by
+  obtain ⟨hcut, hnodev, hno, hcov⟩ := hs
+  refine ⟨?_, ?_, step_inv Variant.fixed env r.fail r.cut w r.op h.ei⟩
+  · rw [hcut] at hnodev ⊢
+    simp only [step] at hnodev ⊢
+    have hd : DInv (beginReq w none).view c := h.d
+    have hei : ExecInv (beginReq w none) := h.ei
+    have hdom : WDom (beginReq w none) := h.dom
+    generalize beginReq w none = w0 at hd hei hdom hnodev ⊢
+    cases hop : r.op with
+    | create id q =>
+      rw [hop] at hnodev
+      simp only [handle] at hnodev ⊢
+      exact createTask_refines env r.fail w0 c id q hei hd hnodev
+    | update id q => rw [hop] at hcov; cases hcov
+    | delete id =>
+      simp only [handle, specStep, deleteTask_ok, if_true]
+      exact deleteTask_refines env r.fail w0 c id hei hd
+    | tcreate id s =>
+      simp only [handle]
+      exact createTemplate_refines env r.fail w0 c id s hd
+    | tupdate id n s => rw [hop] at hcov; cases hcov
+    | tdelete id =>
+      have hacc : specStep env r.fail c (.tdelete id) (handle Variant.fixed env r.fail w0 (.tdelete id)).2 =
+          accept env r.fail c (.tdelete id) := by
+        unfold specStep; exact if_pos rfl
+      rw [hacc]
+      exact deleteTemplate_refines env r.fail w0 c id hd (hno id hop)
+    | restart =>
+      simp only [handle, specStep, if_true]
+      exact restart_refines env r.fail w0 c hdom hd
+  · rw [hcut]
+    simp only [step]
+    exact WDom.handle (w := beginReq w none) h.dom Variant.fixed env r.fail r.op
+
+/-- Model and spec in lockstep. -/
+def runBoth (env : Env) : List Req → World × Cat → World × Cat
+  | [], x => x
+  | r :: rest, (w, c) =>
+    runBoth env rest ((step Variant.fixed env r.fail r.cut w r.op).1,
+      specStep env r.fail c r.op (step Variant.fixed env r.fail r.cut w r.op).2)
+
+/-- Every step of the history is free of recorded deviations. -/
+def AllOK (env : Env) : List Req → World × Cat → Prop
+  | [], _ => True
+  | r :: rest, (w, c) =>
+    StepOK env c r (step Variant.fixed env r.fail r.cut w r.op).2 ∧
+    AllOK env rest ((step Variant.fixed env r.fail r.cut w r.op).1,
+      specStep env r.fail c r.op (step Variant.fixed env r.fail r.cut w r.op).2)
+
+theorem refine_history (env : Env) (reqs : List Req) (w : World) (c : Cat) (h : RInv w c) (hok : AllOK env reqs (w, c)) :
+    RInv (runBoth env reqs (w, c)).1 (runBoth env reqs (w, c)).2 := by
+  induction reqs generalizing w c with
+  | nil => exact h
+  | cons r rest ih =>
+    obtain ⟨hs, hrest⟩ := hok
+    exact ih _ _ (refine_step env w c r h hs) hrest
+
+theorem RInv.init : RInv {} {} := by
+  refine ⟨⟨fun m k => ?_, rfl, rfl, fun i => rfl⟩, fun i t h => ?_, fun i h => ?_⟩
+  · constructor
+    · intro h; cases h
+    · rintro ⟨_, t, ht, _⟩; cases ht
+  · cases h
+  · cases h
+
+end Kap.C14
